@@ -4,6 +4,10 @@
 //   keys find <0|1> <hex key>        ArgumentKey( key), ArgumentContainer( abbr)::findArg()
 //                                    -> ok <idx> | ok none | throw <class>
 //   keys findc <0|1> <hex char>      the same with ArgumentKey( char)
+//   keys word <0|1> <hex word>       the command-line path: a fresh Handler (hfNoAbbr or not) receives every
+//                                    accepted specification with an int destination, then
+//                                    evalArguments( {prog, word, "7"}) -> ok <idx of the destination that holds 7>
+//                                    | ok none ("Unknown argument") | throw <class>
 //   keys parse <hex spec>            -> ok short=<hex|-> long=<hex|-> str=<hex of operator<<>
 //   keys cmp <hex spec> <hex spec>   -> ok eq=. mismatch=. sw=. lt=.
 // Two containers (abbreviations allowed / not allowed, the flag is a constructor argument) receive the
@@ -16,6 +20,7 @@
 #include "celma/prog_args/detail/argument_container.hpp"
 #include "celma/prog_args/detail/argument_key.hpp"
 #include "celma/prog_args/detail/typed_arg_base.hpp"
+#include "celma/prog_args/handler.hpp"
 
 using celma::prog_args::detail::ArgumentContainer;
 using celma::prog_args::detail::ArgumentKey;
@@ -27,6 +32,7 @@ struct Tables {
    std::unique_ptr<ArgumentContainer> abbr, noabbr;
    std::map<const TypedArgBase*, size_t> indexA, indexN;
    size_t count = 0;
+   std::vector<std::string> specs;   // the accepted specifications, in definition order
    Tables() : abbr(new ArgumentContainer(true)), noabbr(new ArgumentContainer(false)) {}
 };
 
@@ -66,6 +72,7 @@ int main() {
             T->indexN[hn] = T->count;
             out = "ok idx=" + std::to_string(T->count);
             ++T->count;
+            T->specs.push_back(spec);
          });
          return thrown.empty() ? out : thrown;
       }
@@ -84,6 +91,40 @@ int main() {
             out = "ok " + std::to_string(it->second);
          });
          return thrown.empty() ? out : thrown;
+      }
+      if (op == "word" && t.size() == 4 && (t[2] == "0" || t[2] == "1")) {
+         std::string word;
+         if (!vh::hexDecodeStr(t[3], word)) return "bad-op";
+         if (word.find('\0') != std::string::npos) return "bad-op";   // argv words are C strings
+         const bool abbr = t[2] == "1";
+         try {
+            celma::prog_args::Handler h(abbr ? 0 : celma::prog_args::Handler::hfNoAbbr);
+            std::vector<std::unique_ptr<int>> dest;
+            for (const std::string& spec : T->specs) {
+               dest.emplace_back(new int(0));
+               try { h.addArgument(spec, celma::prog_args::destination(*dest.back(), "d"), "d"); }
+               catch (const std::exception& e) {
+                  return std::string("!! Handler::addArgument refused a specification the container accepted: ") + e.what();
+               }
+            }
+            std::string prog = "prog", seven = "7";
+            char* argv[] = { &prog[0], &word[0], &seven[0], nullptr };
+            h.evalArguments(3, argv);
+            std::string hit;
+            for (size_t i = 0; i < dest.size(); ++i)
+               if (*dest[i] == 7) {
+                  if (!hit.empty()) return "!! two destinations received the value";
+                  hit = std::to_string(i);
+               }
+            if (hit.empty()) return "!! accepted, but no destination received the value";
+            return "ok " + hit;
+         }
+         catch (const std::invalid_argument& e) {
+            return std::string(e.what()).rfind("Unknown argument '", 0) == 0 ? "ok none" : "throw invalid_argument";
+         }
+         catch (...) {
+            return vh::guarded([] { throw; });
+         }
       }
       if (op == "parse" && t.size() == 3) {
          std::string spec;
